@@ -980,7 +980,7 @@ Fixpoint probe_of (tr : case) : bytes * N * N :=
   | (Probe f now unow _, _) :: _ => (f, now, unow)
   | _ :: tl => probe_of tl
   end.
-Definition wmaps (c : case) : maps := run_maps init c.
+Definition wmaps (c : case) : maps := s_m (run_maps init c).
 Definition wframe (c : case) : bytes := fst (fst (probe_of c)).
 Definition wnow (c : case) : N := snd (fst (probe_of c)).
 Definition wunow (c : case) : N := snd (probe_of c).
@@ -989,7 +989,7 @@ Definition wunow (c : case) : N := snd (probe_of c).
    implementation and Model rejected at the same step for the same clause (+1), marker raised *)
 Lemma wit_rows :
   run_cases [wit_k03a; wit_k03c; wit_k03f; wit_k03g; wit_k03h] =
-  [[1; 0; 4; 4; 4; 4; 301]; [2; 0; 6; 6; 6; 6; 304]; [3; 0; 5; 3; 5; 3; 307]; [4; 0; 5; 2; 5; 2; 308]; [5; 0; 4; 4; 4; 4; 309]].
+  [[1; 0; 4; 4; 4; 4; 301]; [1; 0; 5; 4; 5; 4; 301]; [2; 0; 6; 6; 6; 6; 304]; [3; 0; 5; 3; 5; 3; 307]; [4; 0; 5; 2; 5; 2; 308]; [5; 0; 4; 4; 4; 4; 309]].
 Proof. vm_compute. reflexivity. Qed.
 
 Definition is_tx (x : res) : bool := match x with Done v _ _ => v =? XDP_TX | OOB => false end.
@@ -1039,7 +1039,7 @@ Definition ack_ex (e : gev) : N := match e with GAck _ _ _ _ _ x _ => x | _ => 0
 Lemma yiaddr_agrees_refuted : ~ yiaddr_agrees.
 Proof.
   intros H.
-  pose (f := wframe wit_k03a). pose (m := run_maps init (firstn 2 wit_k03a)). pose (ex := ack_ex (ack_of wit_k03a)).
+  pose (f := wframe wit_k03a). pose (m := s_m (run_maps init (firstn 2 wit_k03a))). pose (ex := ack_ex (ack_of wit_k03a)).
   pose (mac := [2; 0; 94; 16; 0; 17]). pose (ip := [172; 20; 5; 2]).
   pose (x := xdp (fst (cache_step m (GAck mac ip 1 0 1 ex []))) (wnow wit_k03a) (wunow wit_k03a) f).
   pose (p := parsed_of f).
